@@ -971,8 +971,6 @@ func (e *Exec) parseFloatRope(fr *frame, s value) value {
 func init() {
 	noop := func(fr *frame, args []value) value { return nil }
 	for _, n := range []string{
-		"(*sync.RWMutex).Lock", "(*sync.RWMutex).Unlock", "(*sync.RWMutex).RLock", "(*sync.RWMutex).RUnlock",
-		"(*sync.Mutex).Lock", "(*sync.Mutex).Unlock",
 		"log.Printf", "log.Println", "log.Print", "fmt.Println", "fmt.Printf", "fmt.Print",
 		"(*log.Logger).Printf", "(*log.Logger).Println", "(*log.Logger).Print",
 		"runtime.GC", "runtime.Gosched", "runtime/debug.FreeOSMemory", "log.SetOutput", "log.SetFlags",
@@ -980,8 +978,55 @@ func init() {
 	} {
 		intrinsics[n] = noop
 	}
-	intrinsics["(*sync.Mutex).TryLock"] = func(fr *frame, args []value) value { return true }
-	intrinsics["(*sync.RWMutex).TryLock"] = func(fr *frame, args []value) value { return true }
+	// Mutexes: real exclusion semantics on the cooperative scheduler (a side table keyed by the
+	// address of the mutex). With one thread nothing ever blocks; with several, a thread that
+	// finds the lock taken lets the others run, and a cycle of waiters is reported as a deadlock.
+	lock := func(fr *frame, args []value) value {
+		m := fr.i.mutex(args[0].(*value))
+		fr.i.schedPoint(true)
+		fr.i.blockUntil(func() bool { return !m.writer && m.readers == 0 }, "Mutex.Lock")
+		m.writer = true
+		return nil
+	}
+	unlock := func(fr *frame, args []value) value {
+		m := fr.i.mutex(args[0].(*value))
+		if !m.writer {
+			panic(targetPanic{iface{t: types.Typ[types.String], v: "sync: unlock of unlocked mutex"}})
+		}
+		m.writer = false
+		fr.i.progress++
+		return nil
+	}
+	trylock := func(fr *frame, args []value) value {
+		m := fr.i.mutex(args[0].(*value))
+		if m.writer || m.readers != 0 {
+			return false
+		}
+		m.writer = true
+		return true
+	}
+	intrinsics["(*sync.Mutex).Lock"] = lock
+	intrinsics["(*sync.Mutex).Unlock"] = unlock
+	intrinsics["(*sync.Mutex).TryLock"] = trylock
+	intrinsics["(*sync.RWMutex).Lock"] = lock
+	intrinsics["(*sync.RWMutex).Unlock"] = unlock
+	intrinsics["(*sync.RWMutex).TryLock"] = trylock
+	intrinsics["(*sync.RWMutex).RLock"] = func(fr *frame, args []value) value {
+		m := fr.i.mutex(args[0].(*value))
+		fr.i.schedPoint(true)
+		fr.i.blockUntil(func() bool { return !m.writer }, "RWMutex.RLock")
+		m.readers++
+		return nil
+	}
+	intrinsics["(*sync.RWMutex).RUnlock"] = func(fr *frame, args []value) value {
+		m := fr.i.mutex(args[0].(*value))
+		if m.readers <= 0 {
+			panic(targetPanic{iface{t: types.Typ[types.String], v: "sync: RUnlock of unlocked RWMutex"}})
+		}
+		m.readers--
+		fr.i.progress++
+		return nil
+	}
 	intrinsics["(*sync.WaitGroup).Add"] = func(fr *frame, args []value) value {
 		p := args[0].(*value)
 		fr.i.wgCount()[p] += int(asInt64(args[1]))
